@@ -266,6 +266,12 @@ def check_error_discipline(fx, rep, rule='R12.9'):
             ordn += 1
             key = '%s|%s|%d' % (b.path, c.get('name'), ordn)
             why = SWALLOW_EXEMPT.get('%s|%s' % (b.path, c.get('name')))
+            if why is None and c.get('name') in ('unwrap_or_else', 'map_or_else', 'or_else', 'map_err') and len(t['args']) >= 2:
+                # the error is not dropped when the closure turns it into the compile error the user sees
+                clo = b.trace(t['args'][-1] if c.get('name') != 'map_or_else' else t['args'][1])
+                cb = crate.by_path.get(clo['rv'].get('def')) if clo.get('kind') == 'aggr' and clo['rv'].get('kind') == 'closure' else None
+                if cb is not None and any(tt['callee'].get('name') in ('to_compile_error', 'into_compile_error') for _, tt in cb.iter_terms('call')):
+                    why = 'the closure turns the error into a compile error (to_compile_error)'
             rep.check(why is not None, rule, key, C.where(b, blk), 'listed: %s' % why,
                       'a Result<_, syn::Error> is discarded with `.%s()` in %s: an attribute list the processor rejects (unknown or duplicate item, non-string rename) is not reported; '
                       'the trait is accepted and the whole list - rename, more, oneway - is silently ignored, so the call on the wire is not the declared one' % (c.get('name'), b.path))
